@@ -400,10 +400,11 @@ def whole_functions(repo: Path, ut: ast.Module, st: ast.Module) -> None:
         tree = ut if rel == UT else st
         site = f"{rel}:{name}"
         got = norm_fn(find_fn(tree, name, site, cls))
-        if got != want:
+        wants = want if isinstance(want, tuple) else (want,)
+        if got not in wants:
             import difflib
 
-            d = "\n".join(list(difflib.unified_diff(want.splitlines(), got.splitlines(), "modelled", "found", lineterm=""))[:40])
+            d = "\n".join(list(difflib.unified_diff(wants[-1].splitlines(), got.splitlines(), "modelled", "found", lineterm=""))[:40])
             raise TranslationBroken(site, f"function differs from the one the model was written against:\n{d}")
 
 
